@@ -397,10 +397,174 @@ fn cli_part(ctx: &Arc<Ctx>) {
 	drop(work);
 }
 
+/// Boxes whose edges are tile boundaries (the geographic box of a tile box, as the library itself reports it): the
+/// selection is exact at every level - the same tile box at its own level, its children below, the covering
+/// parents above (integer arithmetic, no rounding guard involved).
+fn part_aligned(ctx: &Arc<Ctx>) {
+	let full = &source_sets()[0].1;
+	let mut boxes: Vec<(u8, u32, u32, u32, u32)> = vec![];
+	for z in 1..=5u8 {
+		let n = 1u32 << z;
+		let vals: Vec<u32> = if z <= 3 { (0..n).collect() } else { vec![0, 1, n / 2 - 1, n / 2, n / 2 + 1, n - 2, n - 1, 3, n / 4, 3 * n / 4 - 1] };
+		for &x0 in &vals {
+			for &x1 in &vals {
+				for &y0 in &vals {
+					for &y1 in &vals {
+						if x0 <= x1 && y0 <= y1 && (z <= 2 || (x0 + x1 + y0 + y1) % ctx.tier.pick(5, 1) == 0) {
+							boxes.push((z, x0, y0, x1, y1));
+						}
+					}
+				}
+			}
+		}
+	}
+	boxes.sort();
+	boxes.dedup();
+	let (ctxr, br): (&Ctx, _) = (ctx, &boxes);
+	par_for(boxes.len(), |bi| {
+		let (z, x0, y0, x1, y1) = br[bi];
+		let tb = TileBBox::new(z, x0, y0, x1, y1).unwrap();
+		let g = tb.as_geo_bbox();
+		let o = Opts { flip: false, swap: false, zoom: None, bbox: Some([g.0, g.1, g.2, g.3]), border: None };
+		let case = json!({"kind": "aligned", "tile_box": [z, x0, y0, x1, y1], "bbox": o.bbox});
+		ctxr.eval();
+		ctxr.transition(1);
+		let p = match catch(|| pyramid_for(&o)) {
+			Ok(Some(p)) => p,
+			Ok(None) => return,
+			Err(pn) => return ctxr.violation(&format!("selection pyramid construction panics at {}", panic_site(&pn)), &format!("tile box {:?}: {pn}", br[bi]), case),
+		};
+		// expected per level, exact
+		let expect = |lv: u8| -> (u32, u32, u32, u32) {
+			if lv >= z {
+				let s = lv - z;
+				(x0 << s, y0 << s, ((x1 + 1) << s) - 1, ((y1 + 1) << s) - 1)
+			} else {
+				let s = z - lv;
+				(x0 >> s, y0 >> s, x1 >> s, y1 >> s)
+			}
+		};
+		for lv in 0..=7u8 {
+			let b = p.get_level_bbox(lv);
+			let got = if b.is_empty() { None } else { Some((b.x_min, b.y_min, b.x_max, b.y_max)) };
+			if got != Some(expect(lv)) {
+				ctxr.violation("a box with tile-aligned edges does not select exactly the tiles it names", &format!("tile box {:?} as geographic box {:?}: level {lv} selects {got:?}, expected {:?}", br[bi], o.bbox.unwrap(), expect(lv)), case.clone());
+				break;
+			}
+		}
+		// through the converting reader (every 7th box): lookups over the source's coordinates
+		if bi % 7 == 0 {
+			let rt = tokio::runtime::Builder::new_current_thread().build().unwrap();
+			let mut cp = TilesConverterParameters::new_default();
+			cp.bbox_pyramid = Some(p);
+			let src = MemSource::new("full", full.clone(), TileFormat::BIN, TileCompression::Uncompressed);
+			if let Ok(conv) = TilesConvertReader::new_from_reader(Box::new(src), cp) {
+				for k in full.keys() {
+					let e = expect(k.0);
+					let want = k.1 >= e.0 && k.1 <= e.2 && k.2 >= e.1 && k.2 <= e.3;
+					let got = catch(|| rt.block_on(conv.get_tile_data(&TileCoord3 { x: k.1, y: k.2, z: k.0 }))).ok().and_then(|r| r.ok()).flatten().is_some();
+					if got != want {
+						ctxr.violation("a box with tile-aligned edges does not select exactly the tiles it names", &format!("tile box {:?}: converting reader {} {k:?}", br[bi], if got { "returns" } else { "lacks" }), case.clone());
+						break;
+					}
+				}
+			}
+		}
+		ctxr.nontrivial(fnv_str(&format!("aligned{:?}", br[bi])));
+	});
+	ctx.outcome_n("tile-aligned boxes", boxes.len() as u64);
+}
+
+/// A source above the sizes at which writers change strategy (21845 tiles: PMTiles leaf directories, several
+/// versatiles blocks per level from z=9 on are C01's) converted with and without flags into three target formats.
+fn part_large(ctx: &Arc<Ctx>, work: &std::path::Path) {
+	let mut full = TileMap::new();
+	for z in 0..=7u8 {
+		for x in 0..(1u32 << z) {
+			for y in 0..(1u32 << z) {
+				full.insert((z, x, y), payload((z, x, y)));
+			}
+		}
+	}
+	let mut jobs = vec![];
+	for cont in [Cont::Pmtiles, Cont::Versatiles, Cont::Mbtiles] {
+		for flags in [0u8, 3, 1] {
+			for boxed in [false, true] {
+				if ctx.tier == Tier::Quick && cont != Cont::Pmtiles && (flags == 1 || boxed) {
+					continue;
+				}
+				jobs.push((cont, flags, boxed));
+			}
+		}
+	}
+	let (ctxr, jr, fr): (&Ctx, _, _) = (ctx, &jobs, &full);
+	par_for(jobs.len(), |ji| {
+		let (cont, flags, boxed) = jr[ji];
+		let o = Opts { flip: flags & 1 != 0, swap: flags & 2 != 0, zoom: None, bbox: if boxed { Some([-100.0, -60.0, 120.0, 70.0]) } else { None }, border: None };
+		let rt = tokio::runtime::Builder::new_current_thread().build().unwrap();
+		let mut cp = TilesConverterParameters::new_default();
+		cp.flip_y = o.flip;
+		cp.swap_xy = o.swap;
+		cp.bbox_pyramid = pyramid_for(&o);
+		let case = json!({"kind": "large", "cont": cont, "flip_y": o.flip, "swap_xy": o.swap, "bbox": o.bbox});
+		let label = format!("21845-tile pyramid -> {} {o:?}", cont.name());
+		ctxr.eval();
+		let (f, c) = if cont == Cont::Mbtiles { (TileFormat::PNG, TileCompression::Uncompressed) } else { (TileFormat::BIN, TileCompression::Uncompressed) };
+		let src = MemSource::new("full7", fr.clone(), f, c).with_fast_stream();
+		let mut conv = match TilesConvertReader::new_from_reader(Box::new(src), cp) {
+			Ok(c) => c,
+			Err(e) => return ctxr.violation("converting reader cannot be built", &format!("{label}: {e}"), case),
+		};
+		let w = match ct::write(&rt, cont, &mut conv, work, &format!("large{ji}")) {
+			Ok(w) => w,
+			Err(e) => return ctxr.violation(&format!("conversion fails: {}", super::c01::norm_msg(&e)), &format!("{label}: {e}"), case),
+		};
+		ctxr.trace(1);
+		match ct::independent_decode(cont, &w) {
+			Err(e) => ctxr.violation("converted container does not follow the layout", &format!("{label}: {e}"), case.clone()),
+			Ok(d) => {
+				let (mut missing, mut wrong, mut extra) = (0u64, 0u64, 0u64);
+				let mut first = None;
+				let mut musts = 0u64;
+				for (k, v) in fr.iter() {
+					let c = t_fwd(*k, &o);
+					match (selected(c, &o), d.tiles.get(&c)) {
+						(Some(true), None) => {
+							missing += 1;
+							first.get_or_insert(c);
+						}
+						(Some(true), Some(g)) | (None, Some(g)) => {
+							musts += 1;
+							if g != v {
+								wrong += 1;
+								first.get_or_insert(c);
+							}
+						}
+						(Some(false), Some(_)) => {
+							extra += 1;
+							first.get_or_insert(c);
+						}
+						_ => {}
+					}
+				}
+				if missing + wrong + extra > 0 {
+					ctxr.violation("converted container: a selected tile is missing, carries another payload, or an unselected one is present (large source)", &format!("{label}: {missing} missing, {wrong} with another payload, {extra} outside the selection; first {first:?}"), case.clone());
+				}
+				if d.tiles.len() as u64 > musts + 10_000 {
+					ctxr.violation("converted container holds tiles without a source tile at the pre-image", &format!("{label}: {} tiles", d.tiles.len()), case.clone());
+				}
+			}
+		}
+		ct::cleanup(&w);
+		ctxr.nontrivial(fnv_str(&format!("large{ji}")));
+	});
+	ctx.outcome_n("large-source conversions", jobs.len() as u64);
+}
+
 pub fn run(ctx: Arc<Ctx>) {
 	ctx.rule(
 		"library: 2 sources (full pyramid z0..3; sparse asymmetric set) whose payloads spell their coordinate x 4 flag combinations x zoom limits {none,(0,0),(1,2),(2,1),(3,9)} x geographic boxes from the C15 lon/lat alphabet (every 9th in quick, all in thorough; incl. points, antimeridian/pole touching) x border {none,0,1,3}; \
-		 TilesConvertReader lookups over every coordinate z<=4, streams over every advertised level, and (for a stride) a full conversion into a versatiles container decoded independently. CLI: `versatiles convert` over option combinations and `versatiles serve --flip-y/--swap-xy` mapping vs the conversion's. \
+		 TilesConvertReader lookups over every coordinate z<=4, streams over every advertised level, and (for a stride) a full conversion into a versatiles container decoded independently. Boxes with tile-aligned edges (all tile boxes of levels 1..3, border values at levels 4..5; as the library's as_geo_bbox reports them) must select exactly the named tiles at every level. A 21845-tile pyramid converted with and without flags / a box into pmtiles, versatiles and mbtiles. CLI: `versatiles convert` over option combinations and `versatiles serve --flip-y/--swap-xy` mapping vs the conversion's. \
 		 oracle: tile at c iff c selected (1e-6 tile don't-care band, border widens per level) and the source has T^-1(c), payload names T^-1(c); lookups, streams and advertised coverage agree. non-trivial = configurations with a flag or a box",
 	);
 	let sets = source_sets();
@@ -465,6 +629,8 @@ pub fn run(ctx: Arc<Ctx>) {
 	});
 	ctx.outcome_n("library configurations", cfgs.len() as u64);
 	ctx.sample(json!({"options": {"flip_y": true, "swap_xy": true, "zoom": [1, 2], "bbox": boxes[boxes.len() / 2], "border": 1}, "source": sets[1].0}));
+	part_aligned(&ctx);
+	part_large(&ctx, &work.0);
 	cli_part(&ctx);
 	ctx.exhaustive(ctx.tier == Tier::Thorough);
 	if ctx.tier == Tier::Quick {
